@@ -492,6 +492,34 @@ def check_c11(A: Analysis) -> Dict[str, Any]:
 
 
 # ---------------------------------------------------------------------------------------------------------------
+# "a matching round follows every acceptance" in the presence of halts (used by C03's and C16's runner parts)
+
+
+def check_round_follows(A: Analysis, prop: str) -> int:
+    """After an accepted order / cancel on market m: if m was running and the session was executing at the observation point
+    before the acceptance AND still at the next one (so no halt intervened), m's book is not executable at that next point.
+    Needs the run option exec_state.  Returns the number of acceptances judged."""
+    sim = A.sim
+    judged = 0
+    last = None
+    pend: Dict[int, Tuple[str, Any]] = {}
+    for k, kw in A.items:
+        if kw.get("executable") is not None and kw.get("running") is not None:
+            for mi, (what, before) in pend.items():
+                ok_before = before is not None and before["running"][mi] and before["sess_exec"]
+                if ok_before and kw["running"][mi] and kw["sess_exec"]:
+                    judged += 1
+                    if kw["executable"][mi]:
+                        raise Violation(f"{prop}.round_follows_acceptance", f"after the accepted {what} on market {mi} (running, executing session, no halt in between) "
+                                                                            f"the book is still executable at the next observation point ({k}, time {kw.get('times', ['?'])[0]})")
+            pend = {}
+            last = kw
+        if k == "log.write" and isinstance(kw["log"], (OrderLog, CancelLog)):
+            pend[sim.markets.index(sim.id2market[kw["log"].market_id])] = (type(kw["log"]).__name__, last)
+    return judged
+
+
+# ---------------------------------------------------------------------------------------------------------------
 # C09
 
 
